@@ -1,9 +1,11 @@
 #![allow(dead_code, unused_variables, unused_imports)]
+mod checks_c03;
 mod checks_c12;
 mod checks_e1;
 mod checks_http;
 mod dump;
 mod e1;
+mod e2;
 mod evidence;
 mod gen;
 mod http;
@@ -45,6 +47,7 @@ fn engine_shard(id: &str, tier: &str, seed: u64, replay: Option<&serde_json::Val
         return checks_e1::shard_run(&plan, seed, replay_case, shard);
     }
     match id {
+        "C03" => checks_c03::shard_run("C03", tier, seed, replay, shard),
         "C15" | "C20" => checks_http::shard_run_grammar(id, tier, seed, replay_case, shard),
         "C16" => checks_http::shard_run_c16(tier, seed, replay_case, shard),
         "C12" => {
@@ -71,6 +74,7 @@ fn engine_finalize(id: &str, tier: &str, seed: u64, out: ShardOut, is_replay: bo
         return checks_e1::finalize(&plan, seed, out, is_replay);
     }
     match id {
+        "C03" => checks_c03::finalize("C03", tier, seed, out, is_replay),
         "C15" | "C20" => checks_http::finalize_grammar(id, tier, out, is_replay),
         "C16" => checks_http::finalize_c16(out, is_replay),
         "C12" => {
@@ -105,6 +109,8 @@ fn orchestrate(id: &str, tier: &str, seed: u64) -> Result<ShardOut, String> {
     let t0 = Instant::now();
     let mut merged = ShardOut::default();
     let mut problems = vec![];
+    let known = evidence::load_known();
+    let is_known = |f: &evidence::Found| known.iter().any(|k| k.property == f.property && !k.signature.is_empty() && f.signature.contains(&k.signature));
     let mut stop = false;
     loop {
         let mut running = 0;
@@ -118,7 +124,7 @@ fn orchestrate(id: &str, tier: &str, seed: u64) -> Result<ShardOut, String> {
                     match std::fs::read_to_string(&*out).ok().and_then(|s| serde_json::from_str::<serde_json::Value>(&s).ok()) {
                         Some(v) => {
                             let so = ShardOut::from_json(&v);
-                            if !so.found.is_empty() {
+                            if so.found.iter().any(|f| !is_known(f)) {
                                 stop = true;
                             }
                             merged.merge(so);
@@ -155,7 +161,7 @@ fn orchestrate(id: &str, tier: &str, seed: u64) -> Result<ShardOut, String> {
         }
         std::thread::sleep(Duration::from_millis(20));
     }
-    if merged.found.is_empty() && !problems.is_empty() {
+    if !merged.found.iter().any(|f| !is_known(f)) && !problems.is_empty() {
         merged.errors.extend(problems);
     }
     Ok(merged)
